@@ -82,14 +82,23 @@ func (e *recvEntry) data() []byte { return fstree.Content(e.C, e.Sz) }
 
 func optFlags(o map[string]bool) []string {
 	s := "-"
-	for _, k := range []string{"r", "l", "p", "t", "D", "c", "I", "n", "o", "g"} {
+	for _, k := range []string{"r", "l", "p", "t", "c", "I", "n", "o", "g"} {
 		if o[k] {
 			s += k
 		}
 	}
+	if o["dv"] && o["sp"] {
+		s += "D"
+	}
 	var out []string
 	if s != "-" {
 		out = append(out, s)
+	}
+	if o["dv"] && !o["sp"] {
+		out = append(out, "--devices")
+	}
+	if o["sp"] && !o["dv"] {
+		out = append(out, "--specials")
 	}
 	if o["del"] {
 		out = append(out, "--delete")
@@ -128,7 +137,7 @@ func recvHandler(w *workerCtx, line []byte) (any, error) {
 		}
 	}
 	// the wire list, in the order given (the scenario lists entries sorted)
-	lo := wirekit.ListOpts{Links: s.Opts["l"], Devices: s.Opts["D"], Specials: s.Opts["D"], Checksum: s.Opts["c"],
+	lo := wirekit.ListOpts{Links: s.Opts["l"], Devices: s.Opts["dv"], Specials: s.Opts["sp"], Checksum: s.Opts["c"],
 		UID: s.Opts["o"], GID: s.Opts["g"]}
 	fl := &wirekit.FileList{IOErr: s.IOErr, Users: s.Users, Groups: s.Groups}
 	for _, e := range s.List {
